@@ -589,6 +589,23 @@ def cache_2_3(ctx, rep, roles):
             rep.ob('CACHE-2', CACHE, f.qual, norm(r.ast), ok, detail)
         if not rets:
             rep.ob('CACHE-2', CACHE, f.qual, 'return <entry>.node', False, 'anchor vanished: no return of a cached node')
+        if qual == 'load_module':
+            # an in-memory entry that is found but outdated ends the lookup (the caller parses again): the disk entry is
+            # judged by a weaker criterion (the pickle's own mtime, known finding F7b) and must not get a second say
+            disk = [n for n in cfg.nodes if calls_in(n, lambda c: norm(c.func).split('.')[-1] == '_load_from_file_system')]
+            for t, (lab, other) in tests:
+                if lab not in ('T', 'F'):
+                    continue
+                stale = 'F' if lab == 'T' else 'T'
+                reach = set()
+                for s2, l2 in t.succ:
+                    if l2 == stale:
+                        reach |= cfg.reachable(start=s2, labels_blocked=('exc',)) | {s2}
+                hit = [d for d in disk if d in reach]
+                rep.ob('CACHE-2', CACHE, f.qual, 'an outdated in-memory entry ends the lookup (%s)' % norm(t.ast), not hit,
+                       'after the in-memory entry was found outdated the on-disk entry is consulted: its freshness is judged by '
+                       "the pickle's own modification time, so a file replaced by a version with a preserved (older than the "
+                       'pickle) timestamp is served stale')
         # disk variant: what is the file mtime compared with?
         if qual == '_load_from_file_system':
             for t, (lab, other) in tests:
@@ -1028,3 +1045,25 @@ def cache_9_10(ctx, rep):
                        witness=norm(bad) if bad is not None else None)
     if not n_calls:
         raise AnalysisError('CACHE-10: try_to_save_module no longer reaches _save_to_file_system')
+
+
+def cache_12(ctx, rep):
+    """cache.py keeps one piece of module-level state: parser_cache.  Anything else it remembers at module level is a
+    belief about the file system that nothing invalidates (seed rt14-C17: the set of cache directories already created -
+    a directory removed by someone else is never created again, every later save fails silently)."""
+    rep.rule('CACHE-12', 'no function of parso/cache.py writes module-level state other than parser_cache: what the cache '
+                         'knows about the file system (directories, files, locks) is looked up when it is needed')
+    from .eff import Effects
+    eff = Effects(ctx)
+    mod = ctx.prog.mod(CACHE)
+    n = 0
+    for f in mod.funcs.values():
+        for node, why in eff.shared_writes(f):
+            if 'module global' not in why:
+                continue
+            n += 1
+            ok = 'module global parser_cache' in why
+            rep.ob('CACHE-12', CACHE, f.qual, norm(node), ok,
+                   'module-level state besides parser_cache is written (%s): a fact about the file system is remembered '
+                   'across calls and never checked again' % why)
+    rep.minimum('CACHE-12', 2)
